@@ -181,8 +181,9 @@ class Runner:
             handle = {"files": names, "writable": bool(r._has_writable), "patching": bool(r._allow_patching),
                       "closed": bool(r._closed), "view": view}
         self.obs.append({"outcome": outcome, "files": files, "handle": handle})
-        if contract and outcome not in CONTRACT:
+        if contract and outcome not in CONTRACT and not getattr(self, "was_closed", False):
             self.foreign = True
+        self.was_closed = False
 
     def check_changes(self, before, after, ub_before, n: Optional[str], kind: str, ro: bool, allow_replace: bool):
         """The sha256 monitor.  n: the record the command addresses; ro: nothing may change."""
@@ -235,7 +236,8 @@ class Runner:
         except BaseException as e:  # noqa: BLE001
             outcome = exc_class(e)
             rec = None
-            gc.collect()
+        if rec is None:
+            gc.collect()   # a refused _open leaves its h5py handles to the garbage collector
         after = snapshot(self.d)
         self.rec = rec
         # ---- oracle
@@ -250,6 +252,11 @@ class Runner:
             if outcome != exp:
                 self.problem(f"open mode {mode!r} on situation {sit!r}: got {outcome}, the contract says {exp}",
                              situation=sit, mode=mode)
+        if (not byname) and full and sit in ("ubase", "cbase", "patched", "upatch"):
+            exp = "ValueError" if mode in ("w", "w-", "x") else "ok"
+            if outcome != exp:
+                self.problem(f"open mode {mode!r} by the complete file list {target[1]} of a record in situation {sit!r}: "
+                             f"got {outcome}, expected {exp} (the order of the list must not matter)", situation=sit, mode=mode)
         replaced = outcome == "ok" and mode == "w"
         self.check_changes(before, after, ub_before, n, f"open {mode!r}" + ("" if outcome == "ok" else " (refused)"),
                            ro=(outcome != "ok" or mode == "r"), allow_replace=replaced)
@@ -289,6 +296,7 @@ class Runner:
     def step(self, kind: str, fn, concrete_cmd, ro_expected=False):
         """Run one handle method; returns the outcome class."""
         self.concrete.append(concrete_cmd)
+        self.was_closed = bool(self.rec._closed)
         n = self.info["name"]
         before, ub_before = snapshot(self.d), ublocks(self.d)
         outcome = "ok"
@@ -355,10 +363,16 @@ class Runner:
         elif kind == "close":
             commit = cmd[1] in ("T", True)
             was_closed = rec._closed
+            pending = (not was_closed) and bool(rec._has_writable)
             outcome = self.step("close", lambda: rec.close(commit=commit), ["close", "T" if commit else "F"],
                                 ro_expected=was_closed)
             if outcome == "ok" and not was_closed:
                 ubs = ublocks(self.d)
+                unc = [fn for fn, ub in ubs.items() if rec_name_of(fn) == n and not ub["committed"]]
+                if pending and commit and unc:
+                    self.problem(f"close() left the pending container {unc} uncommitted")
+                if pending and not commit and not unc:
+                    self.problem("close(commit=False) committed the pending container")
                 if n in self.last_dump and all(ub["committed"] for fn, ub in ubs.items() if rec_name_of(fn) == n):
                     self.commit_dump[n] = self.last_dump[n]
         else:
@@ -520,6 +534,14 @@ def canon_impl(ob: Dict[str, Any]) -> Any:
             hh = {"closed": False, "files": h["files"], "writable": h["writable"], "patching": h["patching"],
                   "view": h["view"]}
     return {"outcome": ob["outcome"], "files": _canon_ids(ob["files"]), "handle": hh}
+
+
+def coarse(outcome: str, cmd) -> str:
+    """Exception classes are compared for opens (the property names them); for the steps on a
+    handle only accepted / refused is compared."""
+    if cmd[0] in ("open", "classify", "drop"):
+        return outcome
+    return "ok" if outcome == "ok" else "refused"
 
 
 def canon_model(res: Any, with_tokens: bool) -> Any:
